@@ -413,9 +413,17 @@ class MeanField(Collection, Dict[Variable, AbstractMessage], Factor):
                 logger=_log_projection_warnings, action="always"
             ) as caught_warnings:
                 if isinstance(delta, MeanField) or delta < 1:
+                    # rescale applies exponents of exactly 0 and 1 without forming
+                    # `message ** 0`, which has no finite parameters
+                    deltas = (
+                        delta
+                        if isinstance(delta, MeanField)
+                        else {v: delta for v in self.keys()}
+                    )
+                    rest = {v: 1 - d for v, d in deltas.items()}
                     factor_dist = (
-                        self ** delta * last_dist ** (1 - delta)
-                    ) / cavity_dist ** delta
+                        self.rescale(deltas) * last_dist.rescale(rest)
+                    ) / cavity_dist.rescale(deltas)
                 else:
                     factor_dist = self / cavity_dist
 
